@@ -341,15 +341,11 @@ def _err(x):
 
 def call_and_wrap(eng, ctx, callee, args, wrap):
     """wrap(callee(args)): the callee is a closure or fn item that is either straight-line (may have effects) or pure (may branch)"""
-    from .models_reg import run_closure
     if isinstance(callee, Closure):
-        try:
-            return wrap(run_closure(eng, ctx, callee, args))
-        except Unsupported as ex:
-            if "straight-line" not in str(ex):
-                raise
-        from .models_str import run_pure
-        return wrap(run_pure(eng, ctx, callee, args))
+        def script(c):
+            r = yield ("callv", callee, list(args))
+            return wrap(r)
+        return Script(script)
     return _then_wrap(eng, ctx, callee, args[0], wrap)
 
 
